@@ -74,41 +74,41 @@ theorem shape_cutNewLines : Facts.shape_cutNewLines = some "gen" := by decide
 theorem shape_splitArgs : Facts.shape_splitArgs = some "gen" := by decide
 
 /-- [C08] `Conn.Raw` is the body the model transcribes -/
-theorem shape_Conn_Raw : Facts.shape_Conn_Raw = some "5132543dbb42025e" := by decide
+theorem shape_Conn_Raw : Facts.shape_Conn_Raw = some "gen" := by decide
 
 /-- [C08,C09,C10,C20] `Conn.write` is the body the model transcribes: rate limit (sleep for exactly what `rateLimit` returns,
 whatever the line says), then the line and CRLF in one buffered write, flushed; PASS lines masked in the debug record -/
 theorem shape_Conn_write : Facts.shape_Conn_write = some "40794eb131cbea91" := by decide
 
 /-- [C08] `Conn.Pass` is the body the model transcribes -/
-theorem shape_Conn_Pass : Facts.shape_Conn_Pass = some "88d768eadebbfed9" := by decide
+theorem shape_Conn_Pass : Facts.shape_Conn_Pass = some "gen" := by decide
 
 /-- [C08] `Conn.Nick` is the body the model transcribes -/
-theorem shape_Conn_Nick : Facts.shape_Conn_Nick = some "2267a5466bc15198" := by decide
+theorem shape_Conn_Nick : Facts.shape_Conn_Nick = some "gen" := by decide
 
 /-- [C08] `Conn.User` is the body the model transcribes -/
-theorem shape_Conn_User : Facts.shape_Conn_User = some "6eeea77643e738fc" := by decide
+theorem shape_Conn_User : Facts.shape_Conn_User = some "gen" := by decide
 
 /-- [C08] `Conn.Join` is the body the model transcribes -/
-theorem shape_Conn_Join : Facts.shape_Conn_Join = some "112531f6f2ceb8f7" := by decide
+theorem shape_Conn_Join : Facts.shape_Conn_Join = some "gen" := by decide
 
 /-- [C08] `Conn.Part` is the body the model transcribes -/
-theorem shape_Conn_Part : Facts.shape_Conn_Part = some "1c08f2f7b12d4911" := by decide
+theorem shape_Conn_Part : Facts.shape_Conn_Part = some "gen" := by decide
 
 /-- [C08] `Conn.Kick` is the body the model transcribes -/
-theorem shape_Conn_Kick : Facts.shape_Conn_Kick = some "4027e3f32f60888a" := by decide
+theorem shape_Conn_Kick : Facts.shape_Conn_Kick = some "gen" := by decide
 
 /-- [C08] `Conn.Quit` is the body the model transcribes -/
-theorem shape_Conn_Quit : Facts.shape_Conn_Quit = some "12d22bce9fffdcc1" := by decide
+theorem shape_Conn_Quit : Facts.shape_Conn_Quit = some "gen" := by decide
 
 /-- [C08] `Conn.Whois` is the body the model transcribes -/
-theorem shape_Conn_Whois : Facts.shape_Conn_Whois = some "56761433ee778d4e" := by decide
+theorem shape_Conn_Whois : Facts.shape_Conn_Whois = some "gen" := by decide
 
 /-- [C08] `Conn.Who` is the body the model transcribes -/
-theorem shape_Conn_Who : Facts.shape_Conn_Who = some "f8bcbaf4459036c3" := by decide
+theorem shape_Conn_Who : Facts.shape_Conn_Who = some "gen" := by decide
 
 /-- [C08,C11] `Conn.Privmsg` is the body the model transcribes -/
-theorem shape_Conn_Privmsg : Facts.shape_Conn_Privmsg = some "c442d85d8877db0f" := by decide
+theorem shape_Conn_Privmsg : Facts.shape_Conn_Privmsg = some "gen" := by decide
 
 /-- [C08,C11] `Conn.Privmsgln` is the body the model transcribes -/
 theorem shape_Conn_Privmsgln : Facts.shape_Conn_Privmsgln = some "961d863c5ba3c2ab" := by decide
@@ -117,49 +117,49 @@ theorem shape_Conn_Privmsgln : Facts.shape_Conn_Privmsgln = some "961d863c5ba3c2
 theorem shape_Conn_Privmsgf : Facts.shape_Conn_Privmsgf = some "4b0c782d335e5f60" := by decide
 
 /-- [C08,C11] `Conn.Notice` is the body the model transcribes -/
-theorem shape_Conn_Notice : Facts.shape_Conn_Notice = some "5a19cffe9f69b595" := by decide
+theorem shape_Conn_Notice : Facts.shape_Conn_Notice = some "gen" := by decide
 
 /-- [C08,C11] `Conn.Ctcp` is the body the model transcribes -/
-theorem shape_Conn_Ctcp : Facts.shape_Conn_Ctcp = some "d26f4d9cc8fd5cb1" := by decide
+theorem shape_Conn_Ctcp : Facts.shape_Conn_Ctcp = some "gen" := by decide
 
 /-- [C08,C11] `Conn.CtcpReply` is the body the model transcribes -/
-theorem shape_Conn_CtcpReply : Facts.shape_Conn_CtcpReply = some "18da7b97dc5fc47f" := by decide
+theorem shape_Conn_CtcpReply : Facts.shape_Conn_CtcpReply = some "gen" := by decide
 
 /-- [C08] `Conn.Version` is the body the model transcribes -/
-theorem shape_Conn_Version : Facts.shape_Conn_Version = some "becd97dd0bf03db4" := by decide
+theorem shape_Conn_Version : Facts.shape_Conn_Version = some "gen" := by decide
 
 /-- [C08,C11] `Conn.Action` is the body the model transcribes -/
-theorem shape_Conn_Action : Facts.shape_Conn_Action = some "bdbda06a0b2d363c" := by decide
+theorem shape_Conn_Action : Facts.shape_Conn_Action = some "gen" := by decide
 
 /-- [C08] `Conn.Topic` is the body the model transcribes -/
-theorem shape_Conn_Topic : Facts.shape_Conn_Topic = some "391dab47b913ced4" := by decide
+theorem shape_Conn_Topic : Facts.shape_Conn_Topic = some "gen" := by decide
 
 /-- [C08] `Conn.Mode` is the body the model transcribes -/
-theorem shape_Conn_Mode : Facts.shape_Conn_Mode = some "0f3e143e461cac25" := by decide
+theorem shape_Conn_Mode : Facts.shape_Conn_Mode = some "gen" := by decide
 
 /-- [C08] `Conn.Away` is the body the model transcribes -/
-theorem shape_Conn_Away : Facts.shape_Conn_Away = some "e59262486c74ce76" := by decide
+theorem shape_Conn_Away : Facts.shape_Conn_Away = some "gen" := by decide
 
 /-- [C08] `Conn.Invite` is the body the model transcribes -/
-theorem shape_Conn_Invite : Facts.shape_Conn_Invite = some "ac3948652dc2f94b" := by decide
+theorem shape_Conn_Invite : Facts.shape_Conn_Invite = some "gen" := by decide
 
 /-- [C08] `Conn.Oper` is the body the model transcribes -/
-theorem shape_Conn_Oper : Facts.shape_Conn_Oper = some "0449cb3d269c4175" := by decide
+theorem shape_Conn_Oper : Facts.shape_Conn_Oper = some "gen" := by decide
 
 /-- [C08] `Conn.VHost` is the body the model transcribes -/
-theorem shape_Conn_VHost : Facts.shape_Conn_VHost = some "3baef3b79e1f5a4a" := by decide
+theorem shape_Conn_VHost : Facts.shape_Conn_VHost = some "gen" := by decide
 
 /-- [C08] `Conn.Ping` is the body the model transcribes -/
-theorem shape_Conn_Ping : Facts.shape_Conn_Ping = some "0bf4006976f3750c" := by decide
+theorem shape_Conn_Ping : Facts.shape_Conn_Ping = some "gen" := by decide
 
 /-- [C08] `Conn.Pong` is the body the model transcribes -/
-theorem shape_Conn_Pong : Facts.shape_Conn_Pong = some "39c37f2b8f38ad1e" := by decide
+theorem shape_Conn_Pong : Facts.shape_Conn_Pong = some "gen" := by decide
 
 /-- [C08] `Conn.Cap` is the body the model transcribes -/
-theorem shape_Conn_Cap : Facts.shape_Conn_Cap = some "4c87ca83ecf6f197" := by decide
+theorem shape_Conn_Cap : Facts.shape_Conn_Cap = some "gen" := by decide
 
 /-- [C08] `Conn.Authenticate` is the body the model transcribes -/
-theorem shape_Conn_Authenticate : Facts.shape_Conn_Authenticate = some "160ecf6596666363" := by decide
+theorem shape_Conn_Authenticate : Facts.shape_Conn_Authenticate = some "gen" := by decide
 
 /-- [C10] `Conn.rateLimit` is the body the model transcribes -/
 theorem shape_Conn_rateLimit : Facts.shape_Conn_rateLimit = some "304b797776fb4789" := by decide
@@ -223,7 +223,7 @@ theorem shape_Conn_h_STNICK : Facts.shape_Conn_h_STNICK = some "f2f480938a7979fe
 theorem shape_Conn_Me : Facts.shape_Conn_Me = some "5755dec09382bb87" := by decide
 
 /-- [C17] `DefaultNewNick` is the body the model transcribes -/
-theorem shape_DefaultNewNick : Facts.shape_DefaultNewNick = some "3735fad4833fb43f" := by decide
+theorem shape_DefaultNewNick : Facts.shape_DefaultNewNick = some "gen" := by decide
 
 /-- [C17] `Conn.EnableStateTracking` is the body the model transcribes -/
 theorem shape_Conn_EnableStateTracking : Facts.shape_Conn_EnableStateTracking = some "a0a16c9811ebe237" := by decide
@@ -554,63 +554,63 @@ the client and state packages that the property's root functions can reach throu
 moves its obligation, however far from the property's anchors it is made. -/
 
 /-- [C01] everything the roots of C01 can reach is as pinned -/
-theorem closure_C01 : Facts.closure_C01 = some "b68b3740da1fe42c" := by decide
+theorem closure_C01 : Facts.closure_C01 = some "23082452cac14dc5" := by decide
 
 /-- [C02] everything the roots of C02 can reach is as pinned -/
-theorem closure_C02 : Facts.closure_C02 = some "b68b3740da1fe42c" := by decide
+theorem closure_C02 : Facts.closure_C02 = some "23082452cac14dc5" := by decide
 
 /-- [C03] everything the roots of C03 can reach is as pinned -/
-theorem closure_C03 : Facts.closure_C03 = some "20352feb0ea96442" := by decide
+theorem closure_C03 : Facts.closure_C03 = some "a7d7f781ff829967" := by decide
 
 /-- [C04] everything the roots of C04 can reach is as pinned -/
-theorem closure_C04 : Facts.closure_C04 = some "b68b3740da1fe42c" := by decide
+theorem closure_C04 : Facts.closure_C04 = some "23082452cac14dc5" := by decide
 
 /-- [C05] everything the roots of C05 can reach is as pinned -/
-theorem closure_C05 : Facts.closure_C05 = some "b68b3740da1fe42c" := by decide
+theorem closure_C05 : Facts.closure_C05 = some "23082452cac14dc5" := by decide
 
 /-- [C06] everything the roots of C06 can reach is as pinned -/
-theorem closure_C06 : Facts.closure_C06 = some "20352feb0ea96442" := by decide
+theorem closure_C06 : Facts.closure_C06 = some "a7d7f781ff829967" := by decide
 
 /-- [C07] everything the roots of C07 can reach is as pinned -/
-theorem closure_C07 : Facts.closure_C07 = some "20352feb0ea96442" := by decide
+theorem closure_C07 : Facts.closure_C07 = some "a7d7f781ff829967" := by decide
 
 /-- [C08] everything the roots of C08 can reach is as pinned -/
-theorem closure_C08 : Facts.closure_C08 = some "110609358b4e60aa" := by decide
+theorem closure_C08 : Facts.closure_C08 = some "61e2152ce0aee2a7" := by decide
 
 /-- [C09] everything the roots of C09 can reach is as pinned -/
-theorem closure_C09 : Facts.closure_C09 = some "f5b067c176b9b315" := by decide
+theorem closure_C09 : Facts.closure_C09 = some "c472fa68764a4825" := by decide
 
 /-- [C10] everything the roots of C10 can reach is as pinned -/
-theorem closure_C10 : Facts.closure_C10 = some "ad5f03ca351ab5b8" := by decide
+theorem closure_C10 : Facts.closure_C10 = some "a0c6f16ed96b164b" := by decide
 
 /-- [C11] everything the roots of C11 can reach is as pinned -/
-theorem closure_C11 : Facts.closure_C11 = some "018d8d91e20a5641" := by decide
+theorem closure_C11 : Facts.closure_C11 = some "e63f1c046ce3efa8" := by decide
 
 /-- [C12] everything the roots of C12 can reach is as pinned -/
-theorem closure_C12 : Facts.closure_C12 = some "6f9d90a7ca64f11b" := by decide
+theorem closure_C12 : Facts.closure_C12 = some "68bd1bedf06165e6" := by decide
 
 /-- [C13] everything the roots of C13 can reach is as pinned -/
-theorem closure_C13 : Facts.closure_C13 = some "5ec579505fb421ea" := by decide
+theorem closure_C13 : Facts.closure_C13 = some "8e0adc757fc10dc4" := by decide
 
 /-- [C14] everything the roots of C14 can reach is as pinned -/
-theorem closure_C14 : Facts.closure_C14 = some "6f9d90a7ca64f11b" := by decide
+theorem closure_C14 : Facts.closure_C14 = some "68bd1bedf06165e6" := by decide
 
 /-- [C15] everything the roots of C15 can reach is as pinned -/
 theorem closure_C15 : Facts.closure_C15 = some "eae4d61ba5f0516e" := by decide
 
 /-- [C16] everything the roots of C16 can reach is as pinned -/
-theorem closure_C16 : Facts.closure_C16 = some "20352feb0ea96442" := by decide
+theorem closure_C16 : Facts.closure_C16 = some "a7d7f781ff829967" := by decide
 
 /-- [C17] everything the roots of C17 can reach is as pinned -/
-theorem closure_C17 : Facts.closure_C17 = some "efe255acdaf16ef6" := by decide
+theorem closure_C17 : Facts.closure_C17 = some "e0f59c35a0586129" := by decide
 
 /-- [C18] everything the roots of C18 can reach is as pinned -/
-theorem closure_C18 : Facts.closure_C18 = some "61020e998413d497" := by decide
+theorem closure_C18 : Facts.closure_C18 = some "fbaf26566abaaa9e" := by decide
 
 /-- [C19] everything the roots of C19 can reach is as pinned -/
-theorem closure_C19 : Facts.closure_C19 = some "0646fda0167afdd4" := by decide
+theorem closure_C19 : Facts.closure_C19 = some "750f05384be07e75" := by decide
 
 /-- [C20] everything the roots of C20 can reach is as pinned -/
-theorem closure_C20 : Facts.closure_C20 = some "20352feb0ea96442" := by decide
+theorem closure_C20 : Facts.closure_C20 = some "a7d7f781ff829967" := by decide
 
 end FactsCheck
